@@ -1484,6 +1484,17 @@ impl<'a> Engine<'a> {
                 if got != want || got != want2 {
                     self.h.viol("C19", "map-debug", format!("Debug (alternate={}) is `{}`, expected `{}`", alt, got, want));
                 }
+                // the standard rendering also under formatter flags (width, hex, sign): compare with
+                // std's debug_map given the very same format string
+                for (flags, g, w) in [
+                    ("{:6?}", format!("{:6?}", m), format!("{:6?}", StdMap(&refs))),
+                    ("{:#x?}", format!("{:#x?}", m), format!("{:#x?}", StdMap(&refs))),
+                    ("{:+?}", format!("{:+?}", m), format!("{:+?}", StdMap(&refs))),
+                ] {
+                    if g != w {
+                        self.h.viol("C19", "map-debug-flags", format!("Debug with `{}` is `{}`; std's debug_map of the same entries gives `{}`", flags, g, w));
+                    }
+                }
             }
             2 => {
                 let got = format!("{}", s.fr.get());
